@@ -350,3 +350,44 @@ func stuckInLocks() (bool, string) {
 	}
 	return all && found > 0, strings.Join(lines, "\n---\n")
 }
+
+// finalConsistency: whatever interleaving happened, once the workers are done and
+// pending writes are flushed the handle is consistent: Control is nil, and Count,
+// All and the set of object files agree (for both collections).
+func finalConsistency(e *Env, db *sod.DB) {
+	asyncNow := false
+	if sch, err := db.Schema(&Doc{}); err == nil && sch.AsyncWrites != nil && sch.AsyncWrites.Enable {
+		asyncNow = true
+	}
+	if asyncNow {
+		if err := db.FlushAllAndCommit(&Doc{}); err != nil {
+			e.failf("after the concurrent phase: FlushAllAndCommit: %v", err)
+		}
+	}
+	if err := db.Control(); err != nil {
+		e.failf("after the concurrent phase (everything flushed): Control reports %v", err)
+	}
+	n, err := db.Count(&Doc{})
+	if err != nil {
+		e.failf("after the concurrent phase: Count: %v", err)
+	}
+	objs, err := db.All(&Doc{})
+	if err != nil || len(objs) != n {
+		e.failf("after the concurrent phase: All returns %d objects (err=%v), Count says %d", len(objs), err, n)
+	}
+	w := WalkDir(e.collDir())
+	if len(w.Objects) != n {
+		e.failf("after the concurrent phase: %d object files on disk, Count says %d", len(w.Objects), n)
+	}
+	for _, o := range objs {
+		f, ok := w.Objects[o.UUID()]
+		if !ok || string(f.Body) != canon(o) {
+			e.failf("after the concurrent phase: object %s read as %s but its file holds %s", o.UUID(), canon(o), func() string {
+				if ok {
+					return string(f.Body)
+				}
+				return "nothing (no file)"
+			}())
+		}
+	}
+}
